@@ -62,6 +62,15 @@ def scnStep (op impl : String) : StepOut := Id.run do
   let sidleNs : Int := intOf (field op "sidle") * 1000000
   let kaMs := natOf (field op "ka")
   if impl == "skip" then return { model := "skip" }
+  if impl.startsWith "PANIC" then
+    return { model := impl, tags := ["driver-panic"], fails := [("no_panic_on_close", "-", "the scenario panicked inside the driver process")] }
+  -- a scenario run in a child process that died: the connection's run loop panicked
+  let pan := field impl "panic"
+  if pan ≠ "" && pan ≠ "0" then
+    let ips := natOf (field op "ips")
+    let cls := if pan == "slice_bounds" && cause == "cappx" && ips ≥ 1437 then "close_packet_overflows_buffer" else "-"
+    return { model := impl, tags := [s!"cause:{cause}", "panic"],
+             fails := [("no_panic_on_close", cls, s!"the process died closing the connection: {pan} in {field impl "where"} (InitialPacketSize {ips})")] }
   let dial := field impl "dial"
   let cC := field impl "c.cause"
   let sC := field impl "s.cause"
@@ -148,6 +157,11 @@ def scnStep (op impl : String) : StepOut := Id.run do
     if got == want then [] else [("context_cause_matches", "-", s!"{who}: context cause {got}, expected {want}")]
   if !setupRace && dial == "nil" then
     match cause with
+    | "cappx" =>
+      fails := fails ++ expect "client" cC s!"app:{code}:l"
+      -- the server never saw the client's Finished: it is told by the Initial/Handshake CONNECTION_CLOSE or times out
+      if isRemote sC = false && sC ≠ "noconn" && sC ≠ "idle" && sC ≠ "hstimeout" && sC ≠ "" then
+        fails := fails ++ [("peer_informed_iff_due", "-", s!"client closed while completing the handshake; server cause {sC}")]
     | "capp" | "kalive" =>
       fails := fails ++ expect "client" cC s!"app:{code}:l"
       if sC ≠ "noconn" && sC ≠ "" then
